@@ -140,7 +140,11 @@ def run(ctx):
             ro = impl[ci]["ok"]
             pts = " ".join("(%s %s %s)" % (qs(fr(a)), qs(fr(v[1])), qs(fr(v[2]))) for a, v in zip(c["samples"], ro["u00"]))
             lines2.append("(respdists 0 0 (%s) (%s))" % (" ".join(m), pts))
-            meta2.append((ci, len(m)))
+            meta2.append((ci, len(m), "00"))
+            if "upp" in ro:
+                pts = " ".join("(%s %s %s)" % (qs(fr(a)), qs(fr(v[1])), qs(fr(v[2]))) for a, v in zip(c["samples"], ro["upp"]))
+                lines2.append("(respdists 0 1 (%s) (%s))" % (" ".join(m), pts))
+                meta2.append((ci, len(m), "pp"))
         elif what == "jacf":
             if m[0] != "1":
                 ctx.fail("symqsp", c, "gen_jacobian() values are not the Chebyshev coefficients of Im<0|U|0> (1-norm distance %s)" %
@@ -165,7 +169,7 @@ def run(ctx):
                 ctx.fail("symqsp", c, "gen_jacobian() derivative column %d differs from the true partial derivatives (dual-number enclosure)" % x)
                 bad.add(ci)
     mod2 = run_model(lines2)
-    for (ci, n), m in zip(meta2, mod2):
+    for (ci, n, kind), m in zip(meta2, mod2):
         c = cases[ci]
         if ci in bad:
             continue
@@ -173,6 +177,22 @@ def run(ctx):
             ctx.infra_fail("extracted evaluator failed: " + m)
             continue
         ro = impl[ci]["ok"]
+        if kind == "pp":
+            # the off-diagonal entries: with U01 = U10 = i Q sqrt(1-a^2) (Q real for a symmetric list), <+|U|+> = Re U00 + U01 fixes them
+            if ro.get("ustruct", 0.0) > (n + 1) * 1e-13:
+                ctx.fail("symqsp", c, "gen_unitary returns matrices that are not symmetric SU(2) elements (max relation defect %.3e)" % ro["ustruct"])
+                bad.add(ci)
+                continue
+            for a_hex, v, d in zip(c["samples"], ro["upp"], m):
+                a = float.fromhex(a_hex)
+                s = math.sqrt(max(0.0, 1 - a * a))
+                tol = (n + 1) * (2e-14 + (3e-16 / max(s, 1e-9) if abs(a) != 1 else 0.0))
+                if d == "ERR" or Q.scaled_to_float(d) > tol:
+                    ctx.fail("symqsp", c, "gen_unitary at a=%r: <+|U|+> (diagonal + off-diagonal entries) is at distance %s from the Wx product of the full phases" %
+                             (a, "n/a" if d == "ERR" else "%.3e" % Q.scaled_to_float(d)))
+                    bad.add(ci)
+                    break
+            continue
         for a_hex, v, d, re_, im_ in zip(c["samples"], ro["u00"], m, ro["re"], ro["im"]):
             a = float.fromhex(a_hex)
             s = math.sqrt(max(0.0, 1 - a * a))
